@@ -39,7 +39,7 @@ template <size_t order>
 void interp_case(size_t nodes, size_t left_pad, size_t right_pad, std::vector<std::pair<int, size_t>> bcs, bool use_default) {
   auto &E = Engine::get();
   size_t n = nodes + left_pad + right_pad;
-  auto g = gridvars(n);
+  auto g = gridpoints(n);   // symbolic abscissae; fixed irregular rationals with -DFIXED_GRID (many nodes / high orders)
   Grid<Real> grid(g);
   Support<Real> sup(grid, left_pad, left_pad + nodes);
   std::vector<Real> y;
@@ -115,4 +115,40 @@ void add(std::vector<Case> &cases) {
     }
   if constexpr (order > 1) add<order - 1>(cases);
 }
+#ifdef FIXED_GRID
+// many nodes and high orders on fixed rational abscissae (ordinates, boundary values and the solver output symbolic)
+template <size_t order>
+void add_large(std::vector<Case> &cases, std::initializer_list<size_t> node_counts) {
+  for (size_t nodes : node_counts)
+    for (auto pad : std::vector<std::pair<size_t, size_t>>{{0, 0}, {2, 1}, {5, 0}}) {
+      if (nodes + pad.first + pad.second > 20) continue;
+      std::string base = "interp-large/o" + std::to_string(order) + "/nodes" + std::to_string(nodes) + "/pad" + std::to_string(pad.first) + "," + std::to_string(pad.second);
+      cases.push_back({base + "/default", [=] { interp_case<order>(nodes, pad.first, pad.second, {}, true); }});
+      if constexpr (order >= 2) {
+        // all conditions on the last node with the highest derivatives / alternating with the second derivative first
+        std::vector<std::pair<int, size_t>> sq1, sq2;
+        for (size_t i = 0; i + 1 < order; i++) { sq1.push_back({1, order - i}); sq2.push_back({(int)(i % 2), i / 2 + 2 <= order ? i / 2 + 2 : 1}); }
+        cases.push_back({base + "/bc-last-high", [=] { interp_case<order>(nodes, pad.first, pad.second, sq1, false); }});
+        if (order >= 3) cases.push_back({base + "/bc-alternating-from-2", [=] { interp_case<order>(nodes, pad.first, pad.second, sq2, false); }});
+      }
+    }
+}
+void hx_cases(std::vector<Case> &cases) {
+  add_large<1>(cases, {7, 9, 13, 17});
+  add_large<2>(cases, {7, 9, 12, 16});
+  add_large<3>(cases, {7, 8, 9, 13});
+  add_large<4>(cases, {7, 9});
+  add_large<5>(cases, {2, 3, 5});
+  add_large<6>(cases, {2, 4});
+  add_large<8>(cases, {2, 3});
+#ifdef LARGE_MORE
+  add_large<3>(cases, {10, 11, 12, 16});
+  add_large<4>(cases, {8, 12, 13});
+  add_large<7>(cases, {2, 3, 5});
+  add_large<10>(cases, {2, 3});
+  add_large<12>(cases, {2});
+#endif
+}
+#else
 void hx_cases(std::vector<Case> &cases) { add<MAXO>(cases); }
+#endif
